@@ -71,7 +71,7 @@ def gen_c01(rnd, n, thorough=False):
                 lines.append("open f")
                 tags['ops']['reopen'] = tags['ops'].get('reopen', 0) + 1
             else:
-                now = min(now + R + rnd.randint(0, R), (TMAX if now < TMAX else 2 ** 32 - 8) - 2 * retentions(layout)[-1] - 1)
+                now = min(now + R + rnd.randint(0, R), (TMAX if now < TMAX else 2 ** 32 - 64 - retentions(layout)[-1]) - 2 * retentions(layout)[-1] - 1)
                 tags['ops']['jump'] = tags['ops'].get('jump', 0) + 1
             _observe(rnd, lines, layout, list(range(0, a + 1)), now, nwin=3)
         cases.append({'id': 'c01-%d' % c, 'lines': lines, 'tags': tags})
@@ -332,7 +332,7 @@ def gen_c04(rnd, n, thorough=False):
                 fr = now - Rb + rnd.randint(-1, 1); un = rnd.pick([now, fr, fr + 1])
             else:
                 fr = now - rnd.randint(0, R + 5); un = fr + rnd.randint(0, R + 5)
-            fr, un = max(fr, 0), max(un, 0)
+            fr, un = min(max(fr, 0), 2 ** 32 - 1), min(max(un, 0), 2 ** 32 - 1)        # Timestamp is a uint32
             lines.append("fetch f %d %d %d %d" % (a, fr, un, now))
             tags['ops'][e] = tags['ops'].get(e, 0) + 1
         cases.append({'id': 'c04-%d' % c, 'lines': lines, 'tags': tags})
